@@ -8,8 +8,14 @@ from .. import termjson
 from ..core import Suite, Driver, VERIF, DRIVER
 
 PROPERTY = "C13"
-LEAN_MODULES = ["DAVerif.Props.C13"]
+LEAN_MODULES = ["DAVerif.Props.C13", "DAVerif.Props.C13wf"]
 THEOREMS = [
+    # the walker only returns well-formed terms, so the round trip holds for every accepted text (Props/C13wf.lean)
+    "DAVerif.Expr.C13_parse_gram", "DAVerif.Expr.C13_walk_wf", "DAVerif.Expr.C13_generated_tables_canon",
+    "DAVerif.Expr.C13_walk_wf_text", "DAVerif.Expr.C13_roundtrip_text", "DAVerif.Expr.C13_roundtrip_text_generated",
+    "DAVerif.Expr.C13_roundtrip_text_top", "DAVerif.Expr.C13_roundtrip_names", "DAVerif.Expr.C13_roundtrip_idents",
+    "DAVerif.Expr.C13_walk_wf_dunder_necessary", "DAVerif.Expr.C13_callee_guard_necessary_names",
+    "DAVerif.Expr.C13_walk_wf_float_necessary",
     "DAVerif.Expr.C13_walk_meaning",
     "DAVerif.Expr.C13_generated_tables_sane",
     "DAVerif.Expr.C13_print_parse",
@@ -32,9 +38,10 @@ ASSUMPTIONS = [
     "/repo carries fixes/c13-comparison-chain.diff and fixes/c13-single-element-list.diff",
 ]
 NOT_PROVEN = [
-    "that every term the walker returns (for a text without dunder method names) is well-formed in the sense of "
-    "C13_print_parse is not proven; the suite expr_canon evaluates the model's `wf` on every term the real parser "
-    "returns (and that its printed tokens parse to `cst t`, which walks back to it)",
+    "the round trip is proved for every token list the parser model accepts (C13_roundtrip_text_generated) under two decidable guards: "
+    "no dunder method name is called (known finding, necessity proved) and every float token is within the 400 digits the "
+    "model's repr(float) carries (a limit of the MODEL, proved necessary of it: the real code re-reads such a token as 0.0 both "
+    "times); the callee guard (`(-x)(y)`, known finding) is needed only for the NAME-token statements",
     "text -> token list (lark's lexer) and the spelling of literals (repr / int() / float() / literal_eval) are "
     "compared on samples, not proven, except the int round trip",
     "values of the arithmetic itself (numpy vs CPython) are sampled by the oracle on scalar rows; the theorems are "
